@@ -94,6 +94,7 @@ func (m *Machine) callCommon(g *Goroutine, fr *Frame, cc *ssa.CallCommon, instr 
 			panic(abortf("go on intercepted function %s", fv.fn.String()))
 		}
 		m.pushFrame(ng, fv.fn, args, fv.bind, nil, nil)
+		m.raceSpawn(g, ng)
 		return stNext
 	}
 	return m.invokeValue(g, fr, fnv, args, instr, nil, false)
